@@ -175,6 +175,40 @@ fn run_ty<T>(c: &Case, tier: Tier) -> Chk<Pass> where T: Sc + yui::EucRing, for<
         }
     }
 
+    // boundaries have zero coordinates: vectorize (free part zero, torsion part divisible by the order) and vectorize_euc (reduced: exactly zero);
+    // vectorize_euc(gen(j) + boundary) = e_j modulo the torsion orders
+    for i in 1..l {
+        let w = format!("{what}: complex API, degree {i}");
+        let s = &h[i as isize];
+        let (rank, dim) = (s.rank(), s.rank() + s.tors().len());
+        let tv: Vec<RV> = s.tors().iter().map(|t| t.to_rv()).collect();
+        for j in 0..p.ranks[i - 1] {
+            let x = lib::<T, _>(&w, || cx[i as isize - 1].gen(j))?;
+            let b = lib::<T, _>(&w, || cx.d(i as isize - 1, &x))?;
+            let v = lib::<T, _>(&w, || s.vectorize(&b))?;
+            let vm = match spvec_to_rm(&v) { Ok(m) => m, Err(e) => return bad(format!("{w}: {e}")) };
+            ensure!(vm.m == dim, "{w}: vectorize returns a vector of dimension {}, H has {dim} summands", vm.m);
+            for r in 0..dim {
+                if r < rank { ensure!(k.is_zero(&vm.a[r][0]), "{w}: vectorize(d e_{j}) = {} has a non-zero free coordinate", vm.show()); }
+                else { ensure!(k.divides(&tv[r - rank], &vm.a[r][0]), "{w}: vectorize(d e_{j}) = {} is not zero modulo the torsion orders {:?}", vm.show(), tv.iter().map(SV::of).collect::<Vec<_>>()); }
+            }
+            let ve = lib::<T, _>(&w, || s.vectorize_euc(&b))?;
+            let vem = match spvec_to_rm(&ve) { Ok(m) => m, Err(e) => return bad(format!("{w}: {e}")) };
+            ensure!(vem.m == dim && vem.is_zero(), "{w}: vectorize_euc(d e_{j}) = {} is not zero (torsion orders {:?}, vectorize gives {})", vem.show(), tv.iter().map(SV::of).collect::<Vec<_>>(), vm.show());
+            if dim > 0 {
+                let jj = j % dim;
+                let z = lib::<T, _>(&w, || s.gen(jj) + &b)?;
+                let vz = lib::<T, _>(&w, || s.vectorize_euc(&z))?;
+                let vzm = match spvec_to_rm(&vz) { Ok(m) => m, Err(e) => return bad(format!("{w}: {e}")) };
+                for r in 0..dim {
+                    let diff = k.sub(&vzm.a[r][0], &if r == jj { k.one() } else { k.zero() });
+                    if r < rank { ensure!(k.is_zero(&diff), "{w}: vectorize_euc(gen({jj}) + d e_{j}) = {} is not e_{jj}", vzm.show()); }
+                    else { ensure!(k.is_zero(&diff) || k.divides(&tv[r - rank], &diff), "{w}: vectorize_euc(gen({jj}) + d e_{j}) = {} is not e_{jj} modulo the torsion orders", vzm.show()); }
+                }
+            }
+        }
+    }
+
     let zero_dim = p.ranks.iter().any(|r| *r == 0);
     Ok(Pass::new().nt(has_tors || zero_nb || both).label(format!("ty:{:?}", c.ty)).label_if(has_tors, "torsion").label_if(zero_dim, "zero-dimensional-degree").label_if(both, "d_in,d_out-both-nonzero").label(format!("length:{l}")))
 }
@@ -200,7 +234,7 @@ impl Prop for C07 {
     fn rule() -> String {
         "case = (ring among i64, i128, BigInt, Ratio<i64>, Ratio<BigInt>, F2, F3, F5, Gauss/Eisenstein over i64 and BigInt, Q[x], F3[x]; complex of length 1..4 built by construction d_k = U_k+1 D_k U_k^-1 with chosen ranks (0..3 per block, so 0-dimensional degrees and all-zero maps occur), planted diagonal factors (units, 2, 3, 4, 6, 1+i, x, x^2+1, ..; optionally a divisibility chain) and unimodular U_k from random elementary operations). \
          per degree, HomologyCalc::calculate(d_in, d_out, true): rank == planted free rank, torsion == planted non-unit factors up to units (chain planted, or merged by gcd/lcm over Z), divisibility chain, d_out Q = 0 (generators are cycles), P d_in = 0 on free coordinates and divisible by the torsion order on torsion coordinates, P Q = I (modulo torsion), same rank/torsion with with_trans = false; \
-         GenericChainComplex::generate(..).homology(): ranks, d(gen(j)) = 0, vectorize(gen(j)) = e_j (mod torsion), compute_homology(false) consistent. \
+         GenericChainComplex::generate(..).homology(): ranks, d(gen(j)) = 0, vectorize(gen(j)) = e_j (mod torsion), compute_homology(false) consistent, and for every basis element e of C_{i-1}: vectorize(d e) is zero modulo the torsion orders, vectorize_euc(d e) = 0, vectorize_euc(gen(j) + d e) = e_j modulo the torsion orders. \
          non-trivial = torsion present, or a zero-dimensional neighbour, or d_in and d_out both non-zero".into()
     }
     fn assumptions() -> Vec<String> { vec!["the planted construction and reference products are trusted; arithmetic-overflow panics of machine types are discards".into()] }
